@@ -87,11 +87,14 @@ func (d *FaultyBuildDirectory) EnterParentPopulatableDirectory(name path.Compone
 	if err := d.plan.Op("dir", "EnterParentPopulatableDirectory", d.at+"/"+name.String()); err != nil {
 		return nil, err
 	}
-	c, err := d.BuildDirectory.EnterBuildDirectory(name)
+	c, err := d.BuildDirectory.EnterParentPopulatableDirectory(name)
 	if err != nil {
 		return nil, err
 	}
-	return d.child(c, name), nil
+	if bd, ok := c.(builder.BuildDirectory); ok {
+		return d.child(bd, name), nil
+	}
+	return c, nil
 }
 
 // EnterUploadableDirectory implements UploadableDirectory.
@@ -99,11 +102,14 @@ func (d *FaultyBuildDirectory) EnterUploadableDirectory(name path.Component) (bu
 	if err := d.plan.Op("dir", "EnterUploadableDirectory", d.at+"/"+name.String()); err != nil {
 		return nil, err
 	}
-	c, err := d.BuildDirectory.EnterBuildDirectory(name)
+	c, err := d.BuildDirectory.EnterUploadableDirectory(name)
 	if err != nil {
 		return nil, err
 	}
-	return d.child(c, name), nil
+	if bd, ok := c.(builder.BuildDirectory); ok {
+		return d.child(bd, name), nil
+	}
+	return c, nil
 }
 
 // Mkdir implements BuildDirectory.
